@@ -74,7 +74,7 @@ DOCS = [
      ["DataSet", "DnaMatrix", "DataSet+ns"], {}),
     ("nexus:taxa-chars-sets", "nexus",
      "#NEXUS\nBEGIN TAXA;\n DIMENSIONS NTAX=2;\n TAXLABELS A B;\nEND;\nBEGIN CHARACTERS;\n DIMENSIONS NCHAR=4;\n FORMAT DATATYPE=DNA;\n MATRIX\n A ACGT\n B ACGA\n ;\nEND;\n"
-     "BEGIN SETS;\n CHARSET c1 = 1-2 4;\nEND;\n", ["DataSet", "DnaMatrix", "DataSet+ns"], {}),
+     "BEGIN SETS;\n CHARSET c1 = 1-2 4;\n CHARSET c2 = 1-4\\2;\nEND;\n", ["DataSet", "DnaMatrix", "DataSet+ns"], {}),
     ("nexus:interleaved", "nexus",
      "#NEXUS\nBEGIN DATA;\n DIMENSIONS NTAX=2 NCHAR=6;\n FORMAT DATATYPE=DNA INTERLEAVE;\n MATRIX\n A ACG\n B AAG\n\n A TTT\n B TTA\n ;\nEND;\n",
      ["DataSet", "DnaMatrix", "DataSet+ns"], {}),
